@@ -57,14 +57,14 @@ func Tokenize(s string) (toks Tokens) {
 				tok = newToken()
 			}
 			toks = append(toks, &token{
-				Text:   string(r),
+				Text:   s[i : i+size],
 				Offset: i,
 			})
 		default:
 			if tok.Offset == -1 {
 				tok.Offset = i
 			}
-			tok.Text += string(r)
+			tok.Text += s[i : i+size]
 		}
 		i += size
 	}
